@@ -40,13 +40,14 @@ type Proc struct {
 
 	Done chan struct{} // closed when the behaviour has returned (process is gone)
 
-	ExitCh  chan Exit // puppet: driver-requested exit
-	exitMu  sync.Once
-	sup     *FakeSup
-	killed  bool
-	mu      sync.Mutex
+	ExitCh     chan Exit // puppet: driver-requested exit
+	exitMu     sync.Once
+	sup        *FakeSup
+	killed     bool
+	mu         sync.Mutex
 	Unkillable bool
 	MuteExit   bool
+	KillDelay  time.Duration
 
 	ExecSeq int64
 	ExitSeq int64 // seq of the "exit" log record (0 while alive)
@@ -71,10 +72,11 @@ func (p *Proc) Alive() bool {
 
 // ExecPlan tells the fake supervisor what to do for one Exec request.
 type ExecPlan struct {
-	Fail       error     // if set, Exec returns this error
-	Behave     Behaviour // body of the process (default: Puppet{})
-	Unkillable bool      // Kill does not terminate the process
-	MuteExit   bool      // the termination event of this process is never delivered
+	Fail       error         // if set, Exec returns this error
+	Behave     Behaviour     // body of the process (default: Puppet{})
+	Unkillable bool          // Kill does not terminate the process
+	MuteExit   bool          // the termination event of this process is never delivered
+	KillDelay  time.Duration // Kill takes this long before the process dies (a SIGKILL is not instantaneous)
 	// EarlyExit: the process exits and its exit event is offered on the
 	// events channel before Exec returns (legal for the real supervisor,
 	// whose waiter goroutine starts before Exec returns).
@@ -155,6 +157,7 @@ func (s *FakeSup) Exec(ctx context.Context, req *supvmodel.ExecRequest) error {
 	}
 	p.Unkillable = plan.Unkillable
 	p.MuteExit = plan.MuteExit
+	p.KillDelay = plan.KillDelay
 	p.ExecSeq = s.Log.Add(Event{Src: "sup", Kind: "exec", Op: req.Name, Extra: x})
 
 	s.mu.Lock()
@@ -263,6 +266,14 @@ func (s *FakeSup) Kill(ctx context.Context, req *supvmodel.KillRequest) error {
 		return fmt.Errorf("invalid timeout while killing %s", req.Name)
 	}
 	if !p.Unkillable {
+		if p.KillDelay > 0 {
+			dt := time.NewTimer(p.KillDelay)
+			select {
+			case <-dt.C:
+			case <-p.Done:
+			}
+			dt.Stop()
+		}
 		p.mu.Lock()
 		p.killed = true
 		p.mu.Unlock()
